@@ -161,11 +161,11 @@ Counted ==
     /\ Consume
 
 Skip ==
-    /\ l <= Len(Rec) /\ Ev.e \in {"new", "sub", "cs", "note", "dead", "reset"}
+    /\ l <= Len(Rec) /\ Ev.e \in {"new", "sub", "cs", "db", "dbx", "note", "dead", "reset"}
     /\ UNCHANGED <<isset, cand, must, may, gk, gal, gmu, gma, wip, run, viol, stats>>
     /\ Consume
 
-Known == {"run", "ws", "we", "gs", "ge", "ce", "flood", "panic", "new", "sub", "cs", "note", "dead", "reset"}
+Known == {"run", "ws", "we", "gs", "ge", "ce", "flood", "panic", "new", "sub", "cs", "db", "dbx", "note", "dead", "reset"}
 
 Unknown ==
     /\ l <= Len(Rec) /\ Ev.e \notin Known
